@@ -86,7 +86,7 @@ class Session:
         self.controls = 0
         self.gated = False          # sequential mode: the cleanup delay is held until the harness releases it
 
-    async def _read(self, n, timeout=4.0):
+    async def _read(self, n, timeout=2.0):
         """read up to n observations (stops early when the connection closes)"""
         got = []
         while len(got) < n:
